@@ -382,29 +382,4 @@ def oracleC04 (op : List String) (o : Obs) : Verdict :=
         else .pass
   | _ => .na
 
-/-! ### dispatcher -/
-
-def splitAt (sep : String) (l : List String) : List String × List String :=
-  (l.takeWhile (· ≠ sep), (l.dropWhile (· ≠ sep)).drop 1)
-
-def run (toks : List String) : String :=
-  match toks with
-  | prop :: rest =>
-    let (op, r1) := splitAt "=>" rest
-    let (impl, _aux) := splitAt "<=" r1
-    let o := parseObs impl
-    let v := match prop with
-      | "C01" => oracleC01 op o
-      | "C02" => oracleC02 op o
-      | "C04" => oracleC04 op o
-      | "C05" => oracleC05 op o
-      | "C06" => oracleC06 op o
-      | "C07" => oracleC07 op o
-      | "C08" => oracleC08 op o
-      | "C17" => oracleC17 op o
-      | "C18" => oracleC18 op o
-      | _ => .na
-    v.line
-  | [] => "na"
-
 end BV.Oracle
